@@ -125,6 +125,13 @@ func mutations() []mutation {
 		{"labels.Do(set+delete)", func(h *held) {
 			h.md.Labels().Do(func(tmp kvutils.TempKV) { tmp.Set("k", "DO"); tmp.Set("d", "1"); tmp.Delete("k2") })
 		}},
+		{"labels.Do(Delete first, then Set)", func(h *held) {
+			h.md.Labels().Do(func(tmp kvutils.TempKV) { tmp.Delete("k2"); tmp.Set("after-delete", "1") })
+		}},
+		{"labels.Do(Delete only)", func(h *held) { h.md.Labels().Do(func(tmp kvutils.TempKV) { tmp.Delete("k") }) }},
+		{"annotations.Do(Delete first, then Set)", func(h *held) {
+			h.md.Annotations().Do(func(tmp kvutils.TempKV) { tmp.Delete("ak"); tmp.Set("after-delete", "1") })
+		}},
 		{"annotations.Set(existing)", func(h *held) { h.md.Annotations().Set("ak", "CHANGED") }},
 		{"annotations.Set(new)", func(h *held) { h.md.Annotations().Set("an", "by "+h.name) }},
 		{"annotations.Delete", func(h *held) { h.md.Annotations().Delete("ak") }},
